@@ -695,6 +695,10 @@ func (p *cparser) postfix(e ast.Expr) ast.Expr {
 		case token.LPAREN:
 			p.next()
 			var args []ast.Expr
+			if p.peek().tok == token.MUL && p.i+1 < len(p.toks) && p.toks[p.i+1].tok == token.RPAREN {
+				p.next()
+				args = append(args, &ast.Ident{Name: "$any"})
+			}
 			for p.peek().tok != token.RPAREN {
 				args = append(args, p.expr(0))
 				if p.peek().tok == token.COMMA {
